@@ -121,11 +121,17 @@ impl MinCostFlowSolver {
             .vehicle_types
             .iter()
             .map(|vehicle_type| {
+                let total_distance = total_distances[&vehicle_type].in_meter().unwrap() as f32;
                 (
                     vehicle_type,
-                    1.0 // x% of the maintenance limit is used
+                    if total_distance == 0.0 {
+                        // a fleet that travels no distance needs no maintenance slot (avoid 0/0 = NaN)
+                        f32::INFINITY
+                    } else {
+                        1.0 // x% of the maintenance limit is used
                         * self.config.maintenance.maximal_distance.in_meter().unwrap() as f32
-                        / total_distances[&vehicle_type].in_meter().unwrap() as f32,
+                        / total_distance
+                    },
                 )
             })
             .collect();
